@@ -3,4 +3,8 @@ import AnyTLS.Props.C13
 #print axioms AnyTLS.C13.bounded_sessions_refuted
 #print axioms AnyTLS.C13.second_request_reuses_partial
 #print axioms AnyTLS.C13.dial_only_when_no_idle
+#print axioms AnyTLS.C13.gen_pool_key_unique
+#print axioms AnyTLS.C13.insertSorted_keeps
+#print axioms AnyTLS.C13.add_keeps_other_sessions
+#print axioms AnyTLS.C13.same_key_evicts_refuted
 #print axioms AnyTLS.C13.sequential_dials_instances
